@@ -16,6 +16,8 @@ type HistCase struct {
 	Cfg  core.Config `json:"cfg"`
 	Fill []core.Op   `json:"fill,omitempty"`
 	Prog []core.Op   `json:"prog"`
+	// Raw, when set, replaces the generated history by a tree of literal entries (a finding of native fuzzing)
+	Raw *RawTree `json:"raw,omitempty"`
 }
 
 func genHist(t *rapid.T, tier string, o core.GenOpts, w core.OpWeights, quickOps, thoroughOps, fillMax, slots int) HistCase {
